@@ -372,6 +372,40 @@ def score_case(rng, kind="score", lay=None, cc=None, nframes=None, strategies=No
     return Case(kind=kind, spec=spec, lines=lines, expect=expect)
 
 
+def slack_record_cases(rng, n):
+    """records that declare more bytes than their ranges use: the range list is closed by a zero (or negative) size word / padding,
+    which the reader tolerates (`Delta size out of limits`, rest of the record skipped). The ranges before the terminator are applied
+    and the NEXT record starts where the declared size says: one more encoding of the same frame sequence ("redundant bytes"), at any
+    record position incl. a record without ranges (a frame equal to the previous one) and directly before a `same as previous` record
+    (seeded change C08-m21: on that path the walker landed 2 bytes past the record)"""
+    out = []
+    for _ in range(n):
+        lay = rng.choice(["d4", "d5"]); cc = rng.choice([3, 3, 4, 8])
+        nb = cc * FS[lay]
+        nf = rng.choice([2, 3, 4, 6])
+        bufs, cur = [], rand_buffer(rng, lay, cc)
+        for _k in range(nf):
+            bufs.append(cur)
+            cur = mutate_buffer(rng, lay, cc, cur) if rng.random() < 0.8 else cur
+        spec = dict(lay=lay, cc=cc, fc=nf, u1=0, u2=0, nframes=nf)
+        exp = canon([read_frame(lay, b) for b in bufs])
+        recs = encode_frames(rng, nb, bufs, rng.choice(["min", "random", "mixed", "full"]))
+        slack_at, body = [], b""
+        for k, r in enumerate(recs):
+            e = enc_rec(r)
+            if rng.random() < 0.5 or k == 0:
+                sl = rng.choice([b"\0\0", b"\0\0", b"\0\0\0\0", b"\xff\xff", b"\0\0\x01\x02\x03"])
+                e = struct.pack(">h", len(e) + len(sl)) + e[2:] + sl
+                slack_at.append([k, sl.hex(), r == "S"])
+            body += e
+        inner = struct.pack(">iiihhhh", 20 + len(body), 0x14, nf, 0, FS[lay], cc, 0) + body
+        w = fix_wrapper(rand_wrapper(rng))
+        data = wrap(w, inner) if w is not None else inner
+        spec["slack_at"] = slack_at
+        out.append(Case(kind="slack-records", spec=spec, lines=[f"score parse {hx(data)}"], expect=[exp]))
+    return out
+
+
 def single_range_cases(rng, lay, cc=3, sample=None):
     """every single-range delta (offset, length) on a small score: frame 1 = full rewrite, frame 2 = the delta, frame 3 = same"""
     n = cc * FS[lay]
@@ -499,7 +533,10 @@ def malformed_cases(rng, n):
                 what += "+cc-clamped"
         h = hx(bytes(data))
         lines = [f"score parse {h}", f"score parsedata {h}", f"score stepsobs {h}", f"score stepsum {h}"]
-        if k % 4 == 0:
+        big_by_right = len(data) >= io + 18 and struct.unpack_from(">h", data, io + 16)[0] > 2000
+        if k % 4 == 0 and not big_by_right:
+            # (a score that DECLARES tens of thousands of channels is large by right — 32767 x 24 list slots are 6.3 MB —: the
+            # allocation bound is about memory unrelated to the declared size, as in header_cases)
             lines.append(f"score allocok {h}")
         out.append(Case(kind="malformed", spec=dict(what=what, hex=h[:3000]), lines=lines, expect=[None] * len(lines)))
     return out
@@ -556,6 +593,7 @@ def cases(rng, tier):
     if tier != "quick":
         out += single_range_cases(rng, "d4", cc=4) + single_range_cases(rng, "d5", cc=5)
     out += [score_case(rng) for _ in range(n_score)]
+    out += slack_record_cases(rng, max(60, n_score // 10))
     out += field_cases(rng, n_field)
     out += malformed_cases(rng, n_mal)
     return out
